@@ -71,6 +71,9 @@ def value_array(spec, shape):
         for i, v in enumerate(specials):
             flat[(i * 7 + 3) % flat.size] = v
         return a
+    if kind == "zeros":
+        r = np.random.default_rng(spec["seed"])
+        return np.where(r.random(shape) < 0.5, 0.0, -0.0)  # the sign bit is part of "bit-identical"
     return make_array(dict(spec, shape=list(shape)))
 
 
